@@ -74,6 +74,7 @@ func runClients(x *simkit.Exec, f *fixture, salt string, cfg gwConfig, nclients 
 		if s.Stuck() {
 			x.Troublef("%s: scheduler stuck, parked=%v", salt, s.ParkedIDs())
 		}
+		g.reachProbes()
 		if g.cache != nil {
 			x.ProbeN("gw.cache_hits", int(g.cache.hits.Load()))
 			x.ProbeN("gw.cache_misses", int(g.cache.miss.Load()))
